@@ -196,7 +196,8 @@ class Renderer:
                     if delta:
                         out[side] = delta
                 trd = rc.get("trd")
-                if trd:
+                if trd or rc.get("trd_same"):
+                    trd = trd or []
                     td = []
                     for tick, inc in trd:
                         if inc <= 0:
@@ -206,6 +207,10 @@ class Renderer:
                         traded_delta[i][p] = round(traded_delta[i].get(p, 0) + inc, 2)
                     for p in traded_delta[i]:
                         td.append([p, self.trd[i][p]])
+                    for tick in rc.get("trd_same", ()):
+                        p = self._price(tick)
+                        if p in self.trd[i] and p not in traded_delta[i]:
+                            td.append([p, self.trd[i][p]])  # re-sent, unchanged cumulative volume
                     if td:
                         out["trd"] = td
                         out["ltp"] = td[-1][0]
